@@ -113,6 +113,50 @@ def structured(rng, max_n=9):
     return 0, []
 
 
+GADGETS = [
+    (4, [(0, 1), (1, 0), (0, 2), (1, 2), (2, 3)]),                    # floating acceptance: 3 in every preferred extension, not ideal
+    (6, [(0, 1), (1, 0), (0, 2), (1, 2), (2, 3), (2, 5), (4, 5)]),    # the same next to ideal arguments
+    (3, [(0, 1), (1, 0), (0, 2), (2, 0), (1, 2), (2, 1)]),            # 3 mutually attacking arguments: 3 preferred extensions
+    (4, [(a, b) for a in range(4) for b in range(4) if a != b]),      # 4 of them
+    (3, [(0, 1), (1, 2), (2, 0)]),                                    # odd cycle: no stable extension
+    (4, [(0, 1), (1, 2), (2, 3), (3, 1)]),                            # odd cycle fed by an unattacked argument
+    (2, [(0, 0), (1, 0)]),                                            # self-attacker with an attacker
+    (2, [(0, 0), (0, 1)]),                                            # self-attacker attacking another argument
+    (3, [(0, 1), (1, 2), (2, 2)]),                                    # chain into a self-attacker: stage != semi-stable
+    (1, []),                                                          # isolated argument
+    (4, [(0, 1), (1, 0), (1, 2), (2, 3)]),                            # 2-cycle with a tail
+    (5, [(0, 1), (1, 0), (1, 2), (2, 3), (3, 4), (4, 2)]),            # 2-cycle feeding an odd cycle
+    (2, [(0, 1), (1, 0)]),                                            # 2-cycle
+    (3, [(0, 1), (2, 1)]),                                            # two unattacked attackers of one argument
+]
+
+
+def gadget_union(rng, max_n=9):
+    """disjoint union of semantic gadgets, sometimes bridged by an attack from an earlier to a later gadget,
+    arguments renumbered by a random permutation"""
+    parts, offs = [], []
+    tot = 0
+    for _ in range(rng.randint(1, 4)):
+        k, a = rng.choice(GADGETS)
+        if tot + k > max_n:
+            continue
+        offs.append((tot, k))
+        parts.append((k, a))
+        tot += k
+    if not parts:
+        return 1, []
+    n, atts = disjoint_union(parts)
+    for i in range(len(offs) - 1):
+        if rng.random() < 0.3:
+            (o1, k1), (o2, k2) = offs[i], offs[i + 1]
+            atts.append((o1 + rng.randrange(k1), o2 + rng.randrange(k2)))
+    perm = list(range(n))
+    rng.shuffle(perm)
+    atts = [(perm[a], perm[b]) for a, b in atts]
+    rng.shuffle(atts)
+    return n, atts
+
+
 def all_digraphs(n):
     pairs = [(a, b) for a in range(n) for b in range(n)]
     for mask in range(1 << len(pairs)):
@@ -200,9 +244,11 @@ def spec_of(rng, n, atts):
 
 def random_framework(rng, max_n=8):
     r = rng.random()
-    if r < 0.55:
+    if r < 0.50:
         n = rng.randint(1, max_n)
         return rand_af(rng, n)
+    if r < 0.68 and max_n >= 4:
+        return gadget_union(rng, max_n)
     return structured(rng, max_n)
 
 
